@@ -138,11 +138,14 @@ R_TYPES = {('integer', 1, 'TRUE'): 'int8', ('integer', 2, 'TRUE'): 'int16', ('in
            ('numeric', 4, 'TRUE'): 'float32', ('numeric', 8, 'TRUE'): 'float64', ('complex', 16, 'TRUE'): 'complex128'}
 
 
-def r_(code, var='a'):
+def r_(code, var='a', st=None, pos=0, fid='fileid'):
     """readBin(con, what, n, size, signed, endian): reads up to n records; signed=FALSE only for
     integers of size 1 and 2; array(data, dim) fills in column-major order (R reference: readBin, array)."""
-    st = statements(code, 'R', seps=('nl', ';'), assign=('<-',))
-    _expect(len(st) in (3, 4), 'R: unexpected number of statements')
+    whole = st is None
+    if whole:
+        st = statements(code, 'R', seps=('nl', ';'), assign=('<-',))
+    st = st[pos:]
+    _expect(len(st) >= 3, 'R: too few statements')
     lhs, e = st[0]
     _expect(lhs == ('fileid', '<-') and is_call(e, 'file') and len(e[2]) == 2, 'R: fileid <- file(path, "rb")')
     path = strval(e[2][0], 'path', '"')
@@ -161,7 +164,7 @@ def r_(code, var='a'):
     out = dict(path=path, numtype=R_TYPES[key], byteorder=endian, count=numval(kw['n'], 'n'), dims=None,
                order='col', readonly=mode in ('rb', 'r'))
     i = 2
-    if len(st) == 4:
+    if st[2][0] == (var, '<-') and is_call(st[2][1], 'array'):
         lhs, e = st[2]
         _expect(lhs == (var, '<-') and is_call(e, 'array'), 'R: a <- array(...)')
         pos, kw = kwargs(e[2])
@@ -171,7 +174,10 @@ def r_(code, var='a'):
         i = 3
     lhs, e = st[i]
     _expect(lhs is None and is_call(e, 'close') and e[2] == [('name', 'fileid')], 'R: close(fileid)')
-    return out
+    if whole:
+        _expect(len(st) == i + 1, 'R: trailing statements')
+        return out
+    return out, pos + i + 1
 
 
 ML_PREC = {'int8': 'int8', 'int16': 'int16', 'int32': 'int32', 'int64': 'int64', 'uint8': 'uint8',
